@@ -251,6 +251,12 @@ type fake struct {
 	answer  func(argv []string) reply
 	log     []call
 	nodes   map[string]rueidis.Client
+	// resend > 0: behave like a rueidis client with retries enabled — a command tagged retryable
+	// that fails with a transport error is silently sent again (at most resend times). log holds
+	// the caller-level commands only; wire counts everything that reached the server side.
+	resend int
+	wire   int
+	final  []reply // per caller-level command: the reply the caller finally saw
 }
 
 var (
@@ -265,6 +271,12 @@ func (f *fake) rec(kind byte, cs []sentCmd) []reply {
 	rs := make([]reply, len(cs))
 	for i, c := range cs {
 		rs[i] = f.answer(c.argv)
+		f.wire++
+		for try := 0; try < f.resend && c.retry && rs[i].kind == 'x'; try++ {
+			rs[i] = f.answer(c.argv)
+			f.wire++
+		}
+		f.final = append(f.final, rs[i])
 	}
 	return rs
 }
